@@ -820,7 +820,7 @@ impl<S: BitmapSlice + Send + Sync> FileSystem for PassthroughFs<S> {
             return Err(eperm());
         }
 
-        let entry = self.do_lookup(parent, name)?;
+        let mut entry = self.do_lookup(parent, name)?;
         let file = match new_file {
             // File didn't exist, now created by create_file_excl()
             Some(f) => f,
@@ -845,7 +845,15 @@ impl<S: BitmapSlice + Send + Sync> FileSystem for PassthroughFs<S> {
                     self.open_inode_as(entry.inode, args.flags as i32, ctx.uid, ctx.gid)
                 };
                 match open_existing() {
-                    Ok(f) => f,
+                    Ok(f) => {
+                        if args.flags & (libc::O_TRUNC as u32) != 0 {
+                            // The attributes in `entry` were read before the truncating open.
+                            if let Ok(st) = stat_fd(&f, None) {
+                                entry.attr = st;
+                            }
+                        }
+                        f
+                    }
                     Err(e) => {
                         // The entry is not returned to the client, so the client will never
                         // forget it: release the reference acquired by do_lookup() above.
